@@ -51,4 +51,8 @@ cfg("MC_C13.cfg", N2, [1], 6, 6, 1, "Limit_C13", ["create", "delete", "obs"], []
 cfg("MC_C13_links.cfg", N2, [1], 14, 16, 1, "Limit_Links", ["create", "link", "delete", "obs"], [], "Script_Links", inv=INV + ["SearchSound"])
 # simulation: larger universe, everything enabled
 cfg("MC_Sim.cfg", ["n1", "n2", "n3"], [1, 2], 16, 30, 4, "Limit_Sim", ["create", "createfault", "attr", "data", "time", "link", "delete"], ALLF, "NoScript", inv=[], props=[])
+
+# sessions (C11 read-only, C17 kill): write histories for NixSession schedules
+cfg("MC_Sess_quick.cfg", ["n1"], [1, 2], 4, 4, 1, "Limit_C04", ["create", "attr", "data", "link", "delete"], [], "NoScript")
+cfg("MC_Sess_links_quick.cfg", N2, [1, 2], 14, 15, 1, "Limit_Links", ["create", "attr", "data", "link", "delete"], [], "Script_Links")
 print("ok")
